@@ -38,10 +38,12 @@ pub fn wildcard_match(wild: &str, tame: &str) -> bool {
         } else {
             // If the tame string has more characters
 
-            if tame_char != wild_char {
+            if tame_char != wild_char || wild_char == Some('*') {
                 // If the tame character and the wild character do not match, the only way they can be identical is if there
                 //   was previously or is currently a wildcard character
                 // For example, "abcd" matches "abc*" and "a*"
+                // A `*` in the wild string is always a wildcard, also when the tame string happens to contain a literal `*`
+                //   at that position: "a*bc" matches "a*"
                 if wild_char == Some('*') {
                     // If the wild character is a wildcard character, store the position after it
                     // This is needed in cases such as "abcd" matching "a*d"
